@@ -2,6 +2,7 @@
 From Coq Require Import NArith ZArith List Reals.
 From Flocq Require Import Core IEEE754.Binary IEEE754.Bits.
 From KT Require Import Gen.Generated Gen.Alphabet Gen.FactsBase Gen.FactCentres Gen.FactCornersOligocgr Gen.FactTableKmer Model.Kmer Model.Ops Model.Rows Proof.RowsProof Proof.CgrProof Proof.CgrExact.
+From KT Require Model.Show Model.Pipeline Proof.PipelineProof.
 Import ListNotations.
 Open Scope N_scope.
 
@@ -55,7 +56,17 @@ Proof. vm_compute. reflexivity. Qed.
 Theorem C12_centre_in_the_code : cgr_centre_is_half_cgr = true /\ cgr_centre_is_half_oligocgr = true.
 Proof. exact cgr_centres_ok. Qed.
 
+(* "rows are in input order for every ... batch limit": the batch loop of OligoCgrComputer::vectorise writes the
+   row of every record, in input order, whatever the limit (the thread count only sizes the pool that maps a batch
+   to its rows with an order-preserving collect) *)
+Theorem C12_rows_in_input_order_for_every_batch_limit :
+  forall k S norm mem recs,
+  KT.Model.Pipeline.m_ocgrfile_mem k S norm mem recs
+  = Show.dec_nat (length recs) ++ [35] ++ Show.join KT.Model.Pipeline.semi (map (m_ocgr k S norm) recs).
+Proof. exact KT.Proof.PipelineProof.ocgrfile_batch_any_limit. Qed.
+
 Print Assumptions C12_corners.
+Print Assumptions C12_rows_in_input_order_for_every_batch_limit.
 Print Assumptions C12_points_per_column.
 Print Assumptions C12_point_is_cgr_end_point.
 Print Assumptions C12_frequency_is_oligo_entry.
